@@ -27,9 +27,15 @@ def claimed():
 
 
 def detect(scratch, props):
+    from concurrent.futures import ThreadPoolExecutor
     out = {}
-    for p in props:
-        rc, o = run([os.path.join(HERE, "bin", "texelcheck"), "-property", p, "-repo", scratch, "-dump"], cwd=HERE)
+
+    def one(p):
+        return p, run([os.path.join(HERE, "bin", "texelcheck"), "-property", p, "-repo", scratch, "-dump"], cwd=HERE)
+
+    with ThreadPoolExecutor(max_workers=8) as ex:
+        results = list(ex.map(one, props))
+    for p, (rc, o) in results:
         keys = []
         for line in o.splitlines():
             if line.startswith("violated ") or line.startswith("undecided "):
@@ -55,6 +61,8 @@ def main():
         # re-run the checks against every stored seed and rewrite detected_by
         base = os.path.join(HERE, "seeded")
         for d in sorted(os.listdir(base)):
+            if a.name and a.name not in d:
+                continue
             mp = os.path.join(base, d, "meta.json")
             if not os.path.exists(mp):
                 continue
